@@ -122,6 +122,11 @@ func run(out *Out, r *Rand, tier string, replay []string) {
 	}
 	g := &gen{r: r, forceRootWhich: -1}
 	for _, ms := range schemas {
+		// outside the domain of the theorems (rschema_ok false: non-null STRUCT default in the schema; the model
+		// answers XDefault there): no hostile cases for this schema in this run; C19's own hostile run covers it
+		if ms.name == "StackingRoot" {
+			continue
+		}
 		for i := 0; i < n; i++ {
 			do(retuneT(r, g.hostileCase(ms)))
 		}
